@@ -70,6 +70,9 @@ func (ex *Exec) callBuiltin(b *ssa.Builtin, args []Value, site *ssa.CallCommon) 
 			if x.symCap != nil {
 				return x.symCap
 			}
+			if x.lazyCap != nil {
+				return x.lazyCap
+			}
 			if x.symLen != nil {
 				args[0] = ex.mat(x)
 				return ex.intTerm(args[0].(*SliceVal).cap)
@@ -237,6 +240,19 @@ func (ex *Exec) appendVals(s *SliceVal, add []Value, et types.Type) *SliceVal {
 		return s
 	}
 	need := s.len + len(add)
+	if s.lazyCap != nil {
+		if ex.Decide(ex.tt.Ule(ex.intTerm(need), s.lazyCap)) {
+			if need > s.cap {
+				panic(pathEnd{kind: "bound", msg: "append into a buffer of symbolic capacity beyond its modelled cells"})
+			}
+			for i, v := range add {
+				s.arr.e[s.off+s.len+i] = ex.copyVal(v)
+			}
+			ex.noteAccess(nil, s.arr, -1, true)
+			return &SliceVal{arr: s.arr, off: s.off, len: need, cap: s.cap, lazyCap: s.lazyCap}
+		}
+		s = &SliceVal{arr: s.arr, off: s.off, len: s.len, cap: s.len} // full: reallocate
+	}
 	if s.arr != nil && need <= s.cap {
 		for i, v := range add {
 			s.arr.e[s.off+s.len+i] = ex.copyVal(v)
